@@ -24,6 +24,8 @@ type DriverOpts struct {
 	WorkDir  string // .build/<id>
 	Hooks    bool
 	Replay   string
+	// CoverFunc is the output of `go tool covdata func` for the reach audit ("" = not run).
+	CoverFunc string
 }
 
 // KnownFinding is one entry of /verif/known_findings.json.
@@ -509,6 +511,9 @@ func writeEvidence(o DriverOpts, p *Prop, m *acc, stats map[string]*StratumStat,
 	if len(inconclusive) > 0 {
 		cov["inconclusive_reasons"] = inconclusive
 	}
+	if ra := reachAudit(o, p); ra != nil {
+		cov["reach_audit"] = ra
+	}
 	ev := map[string]any{
 		"property_id": p.ID,
 		"tier":        o.Tier.String(),
@@ -525,4 +530,64 @@ func writeEvidence(o DriverOpts, p *Prop, m *acc, stats map[string]*StratumStat,
 	tmp := filepath.Join(dir, p.ID+".json.tmp")
 	os.WriteFile(tmp, b, 0o644)
 	os.Rename(tmp, filepath.Join(dir, p.ID+".json"))
+}
+
+// reachAudit reads `go tool covdata func` output and reports the statement
+// coverage of every library function in the files the property is anchored in
+// (from properties.jsonl), as reached by the quick-sized workload on a
+// coverage-instrumented build.
+func reachAudit(o DriverOpts, p *Prop) map[string]any {
+	if o.CoverFunc == "" {
+		return nil
+	}
+	b, err := os.ReadFile(o.CoverFunc)
+	if err != nil {
+		return nil
+	}
+	files := map[string]bool{}
+	if pb, err := os.ReadFile(filepath.Join(o.VerifDir, "properties.jsonl")); err == nil {
+		for _, line := range strings.Split(string(pb), "\n") {
+			var rec struct {
+				ID      string `json:"id"`
+				Anchors struct {
+					Files []string `json:"files"`
+				} `json:"anchors"`
+			}
+			if json.Unmarshal([]byte(line), &rec) == nil && rec.ID == p.ID {
+				for _, f := range rec.Anchors.Files {
+					files["github.com/pion/rtp/"+f] = true
+				}
+			}
+		}
+	}
+	funcs := map[string]string{}
+	var zero []string
+	n := 0
+	for _, line := range strings.Split(string(b), "\n") {
+		f := strings.Fields(line)
+		if len(f) != 3 || !strings.HasSuffix(f[2], "%") {
+			continue
+		}
+		loc := strings.SplitN(f[0], ":", 2)
+		if !files[loc[0]] {
+			continue
+		}
+		name := strings.TrimPrefix(loc[0], "github.com/pion/rtp/") + ":" + f[1]
+		funcs[name] = f[2]
+		n++
+		if f[2] == "0.0%" {
+			zero = append(zero, name)
+		}
+	}
+	if n == 0 {
+		return nil
+	}
+	sort.Strings(zero)
+	return map[string]any{
+		"how":                         "quick-sized workload of this property (plain-build strata) on a `go build -cover` binary; `go tool covdata func`",
+		"anchor_files":                len(files),
+		"functions":                   n,
+		"function_statement_coverage": funcs,
+		"functions_not_reached":       zero,
+	}
 }
